@@ -34,6 +34,10 @@ fn implement_deserialize(field_infos: Vec<FieldInfo>) -> Vec<TokenStream> {
                     exists_version_which_needs_default_value = true;
                 }
             }
+            if verinfo.version_to < std::u32::MAX {
+                // Versions after 'version_to' do not contain the field either.
+                exists_version_which_needs_default_value = true;
+            }
         }
 
         let effective_default_val = if is_removed.is_removed() {
